@@ -793,6 +793,15 @@ static void run_strings() {
                     resolvo::String x(v1);
                     x = x.data();
                     ok = ok && std::string(std::string_view(x)) == v1;
+                    // a proper prefix of the string's own data (same data pointer, shorter length), and the
+                    // empty prefix
+                    resolvo::String y(v2);
+                    std::string_view head = std::string_view(y).substr(0, cut);
+                    y = head;
+                    ok = ok && std::string(std::string_view(y)) == v2.substr(0, cut);
+                    resolvo::String z(v2);
+                    z = std::string_view(z).substr(0, 0);
+                    ok = ok && std::string_view(z).empty();
                 }
                 {
                     // a default-constructed string_view has a null data pointer and length 0
